@@ -432,6 +432,14 @@ MATCH_COMBINATORS = {
     'core::result::Result::or_else': ('Err', True),
     'core::result::Result::and_then': ('Ok', True),
 }
+# ... except when the closure arrives through the `impl FnOnce` parameter of a helper that was inlined next to it
+# (`self.entry.as_mut().map(edit)`): those models look for a closure literal at the call and find none
+MOVED_CLOSURE_COMBINATORS = {
+    'core::option::Option::map': ('Some', False),
+    'core::option::Option::and_then': ('Some', True),
+    'core::result::Result::map': ('Ok', False),
+    'core::result::Result::map_err': ('Err', False),
+}
 VARIANT_INDEX = {'Ok': 0, 'Err': 1, 'None': 0, 'Some': 1}
 
 
@@ -474,8 +482,11 @@ def matchify(facts, fn, blk):
     pinned tree does not have: rewritten into the `match` they abbreviate, closure inlined on its arm"""
     t = fn.blocks[blk]['term']
     callee = t.get('callee') or ''
-    which, whole = MATCH_COMBINATORS[callee]
+    which, whole = MATCH_COMBINATORS.get(callee) or MOVED_CLOSURE_COMBINATORS[callee]
     cdef, clo_local = _closure_def_of(fn, t['args'][1])
+    if cdef is None:
+        cdef = _closure_behind(fn, t['args'][1])
+        clo_local = (t['args'][1].get('m') or t['args'][1].get('c') or {}).get('l')
     cf = facts.fns.get(cdef) if cdef else None
     if cf is None or cf.argc != 2 or len(cf.blocks) > MAX_BLOCKS or t.get('ret') is None:
         return False
@@ -633,6 +644,17 @@ def normalise_loops(facts):
                 if t['k'] == 'call' and t.get('callee') in MATCH_COMBINATORS and len(t.get('args') or []) == 2:
                     cdef, _l = _closure_def_of(f, t['args'][1])
                     if cdef and cdef not in known and cdef in facts.fns and facts.fns[cdef].crate == 'fatfs':
+                        try:
+                            if matchify(facts, f, bi):
+                                changed = True
+                        except Exception:
+                            pass
+                if t['k'] == 'call' and t.get('callee') in MOVED_CLOSURE_COMBINATORS and len(t.get('args') or []) == 2:
+                    direct, _l = _closure_def_of(f, t['args'][1])
+                    cdef = _closure_behind(f, t['args'][1]) if direct is None else None
+                    # (no `known` test: closure names are positional, and the pinned tree has no closure travelling
+                    # through moves into a combinator - that only arises after a new helper was inlined)
+                    if cdef and cdef in facts.fns and facts.fns[cdef].crate == 'fatfs':
                         try:
                             if matchify(facts, f, bi):
                                 changed = True
